@@ -425,7 +425,13 @@ def cbmc_job(u, sp, job, workdir, tier):
     res["solver_s"] = round(dt, 2)
     open(base + ".cbmc.json", "w").write(so)
     if rc == -9:
-        res["reason"] = "cbmc timeout after %ds" % timeout
+        if dt < timeout - 5:
+            # SIGKILL well before the deadline: the kernel's OOM killer (several multi-GB jobs in parallel); the
+            # scheduler below runs such jobs once more on their own
+            res["reason"] = "cbmc killed after %.0fs (out of memory while running in parallel)" % dt
+            res["killed_early"] = True
+        else:
+            res["reason"] = "cbmc timeout after %ds" % timeout
         return res
     try:
         out = json.loads(so)
@@ -779,6 +785,14 @@ def check(prop, tier, only_jobs=None, keep=False):
             results.append(r)
             nfail = len([o for o in r["obligations"] if o["status"] != "SUCCESS" and not o["cover"]])
             log("  [%s] %-34s %-9s %4d obligations, %d failed, %.1fs %s" % (prop, r["job"], r["status"], len([o for o in r["obligations"] if not o["cover"]]), nfail, r["solver_s"], r["reason"][:300]))
+    # jobs the OOM killer took while many ran side by side: once more, one at a time
+    retry = [r for r in results if r.get("killed_early")]
+    for r0 in retry:
+        j = [x for x in jobs if x["name"] == r0["job"]][0]
+        r = cbmc_job(units[j["unit"]], specs[j["unit"]], j, workdir, tier)
+        results[results.index(r0)] = r
+        nfail = len([o for o in r["obligations"] if o["status"] != "SUCCESS" and not o["cover"]])
+        log("  [%s] %-34s %-9s %4d obligations, %d failed, %.1fs %s (re-run alone)" % (prop, r["job"], r["status"], len([o for o in r["obligations"] if not o["cover"]]), nfail, r["solver_s"], r["reason"][:300]))
     results.sort(key=lambda r: r["job"])
     known = load_known()
     violations = []
